@@ -176,6 +176,7 @@ type iniFile struct {
 
 type iniSection struct {
 	Pos        lexer.Position
+	Doc        []string   `@Comment*`
 	Name       string     `"[" @Ident "]"`
 	Properties []*iniProp `@@*`
 	EndPos     lexer.Position
@@ -183,8 +184,9 @@ type iniSection struct {
 
 type iniProp struct {
 	Pos   lexer.Position
-	Key   string   `@Ident "="`
-	Value iniValue `@@`
+	Key   string      `@Ident`
+	Op    lexer.Token `@( "+"? "=" )`
+	Value iniValue    `@@`
 }
 
 type iniValue interface{ iniv() }
@@ -214,7 +216,7 @@ func commentScanner() lexer.Definition {
 }
 
 var worldIni = &world{
-	name: "ini", lexerKind: "text/scanner", junk: " ] ]",
+	name: "ini", lexerKind: "text/scanner", junk: "\n] ]",
 	build: func(o buildOpts) PH {
 		opts := applyCommon(o, commentScanner(), nil)
 		opts = append(opts, participle.Unquote("String", "RawString", "Char"),
@@ -233,7 +235,9 @@ var worldIni = &world{
 		{name: "nest", valid: true, text: "v = {{{1}}}\n", nest: func(d int) string {
 			return "v = " + strings.Repeat("{", d) + "1" + strings.Repeat("}", d) + "\n"
 		}},
+		{name: "append", valid: true, text: "a = 1\na += 2 // more\n// doc one\n/* doc two */\n[s] // trailing\nb += {x}\n// at the very end"},
 		{name: "missing-value", valid: false, text: "a = \n[b]\nc = 1\n"},
+		{name: "missing-op", valid: false, text: "a 5\n"},
 		{name: "bad-section", valid: false, text: "[sec\nx = 1\n"},
 	},
 }
@@ -333,6 +337,7 @@ func heredocRules() lexer.Rules {
 			{Name: "Heredoc", Pattern: `<<(\w+\b)`, Action: lexer.Push("Heredoc")},
 			{Name: "String", Pattern: `"(?:\\.|[^"])*"`},
 			{Name: "Comment", Pattern: `#[^\n]*`},
+			{Name: "remark", Pattern: `//[^\n]*`},
 			{Name: "Punct", Pattern: `[;=]`},
 			lexer.Include("Common"),
 		},
@@ -357,7 +362,7 @@ type hdFile struct {
 type hdStmt struct {
 	Pos    lexer.Position
 	Assign *hdAssign `( @@`
-	Doc    *hdDoc    `| @@ ) ";"?`
+	Doc    *hdDoc    `| @@ ) ( ";" | EOF )?`
 	EndPos lexer.Position
 }
 
@@ -373,7 +378,7 @@ type hdDoc struct {
 }
 
 var worldHeredoc = &world{
-	name: "heredoc", lexerKind: "stateful", junk: " = =", perRunDelim: true,
+	name: "heredoc", lexerKind: "stateful", junk: "\n= =", perRunDelim: true,
 	build: func(o buildOpts) PH {
 		def, err := lexer.New(heredocRules())
 		if err != nil {
@@ -392,6 +397,8 @@ var worldHeredoc = &world{
 		{name: "three", valid: true, text: "<<{D0} a {D0} <<{D1} b {D1} <<{D2} c {D2} <<{D0} d {D0}\n"},
 		flatDoc("flat-docs", "", "<<{D1} w {D1};", ""),
 		flatDoc("flat-words", "<<{D2} w", " w", " {D2}\n"),
+		flatDoc("flat-remarks", "a = b\n", "// r\n", "c = d # trailing comment"),
+		{name: "trailing-elided", valid: true, text: "x = y # c1\n# c2\n  # c3"},
 		{name: "empty", valid: true, text: ""},
 		{name: "unterminated", valid: false, text: "<<{D0} never closed"},
 		{name: "stray-eq", valid: false, text: "x = = y"},
